@@ -98,6 +98,9 @@ pub struct Cfg {
     pub max_past_epochs: usize,
     pub retention: usize,
     pub ttl: u64,
+    /// memory clients: `ValidationLimits::max_messages_per_group` (0 = the backend's default)
+    #[serde(default)]
+    pub mem_msg_limit: usize,
 }
 
 impl Default for Cfg {
@@ -109,6 +112,7 @@ impl Default for Cfg {
             max_past_epochs: d.max_past_epochs,
             retention: d.epoch_snapshot_retention,
             ttl: d.snapshot_ttl_seconds,
+            mem_msg_limit: 0,
         }
     }
 }
@@ -690,7 +694,11 @@ pub fn open_client_mdk(
 ) -> Result<AnyMdk, String> {
     Ok(match kind {
         BackendKind::Mem => AnyMdk::Mem(
-            MDK::builder(MdkMemoryStorage::default())
+            MDK::builder(if cfg.mem_msg_limit > 0 {
+                MdkMemoryStorage::with_limits(mdk_memory_storage::ValidationLimits { max_messages_per_group: cfg.mem_msg_limit, ..Default::default() })
+            } else {
+                MdkMemoryStorage::default()
+            })
                 .with_config(cfg.to_mdk())
                 .with_callback(recorder)
                 .build(),
